@@ -53,7 +53,7 @@ func init() {
 	Properties["C07"] = PropSpec{
 		Rules: []Rule{
 			FieldFed,
-			CtorRecursion, RefWalk,
+			PanicBoundary, CtorRecursion, RefWalk,
 			PanicInventory(c07Entries, []DynEntry{
 				{Func: "(*SchemaValidator).Validate", DataArg: 1},
 				{Func: "(*ParamValidator).Validate", DataArg: 1},
@@ -180,7 +180,7 @@ func init() {
 	}
 	anyDomain := append(append([]atom{}, goTypedDomain...), aSliceIface, aMapIface, other(reflect.Struct), other(reflect.Ptr), other(reflect.Map), other(reflect.Bool), other(reflect.Func), other(reflect.Interface))
 	Properties["C14"] = PropSpec{
-		Rules: []Rule{EqualTable, Pure, Orderings, Cow,
+		Rules: []Rule{EqualTable, DataWalk, Pure, Orderings, Cow,
 			PanicInventory(valueHelpers, helperEntries, anyDomain, "any Go value: nil, every basic kind, named strings, slices, maps, structs, pointers", "no-applies", "helpers"),
 			NilRule(func(p *core.Prog) []*ssa.Parameter {
 				var out []*ssa.Parameter
@@ -212,7 +212,7 @@ func init() {
 
 func init() {
 	Properties["C16"] = PropSpec{
-		Rules: []Rule{EqualTable, DatumFree, Chain, EnumConvert, Keywords("ParamValidator", simpleKeywords, "param_ctor_calls"), Keywords("HeaderValidator", simpleKeywords, "header_ctor_calls"), Keywords("itemsValidator", simpleKeywords, "items_ctor_calls"), KeywordPosition, HelperField, KeywordGuard,
+		Rules: []Rule{EqualTable, DataWalk, DatumFree, Chain, EnumConvert, Keywords("ParamValidator", simpleKeywords, "param_ctor_calls"), Keywords("HeaderValidator", simpleKeywords, "header_ctor_calls"), Keywords("itemsValidator", simpleKeywords, "items_ctor_calls"), KeywordPosition, HelperField, KeywordGuard,
 			Narrow, Orderings, OrderingsTyped, Pure, TypeTable, AppliesTable, KeywordPred, ArgRole,
 			PanicInventory([]string{"NewParamValidator", "NewHeaderValidator", "(*ParamValidator).Validate", "(*HeaderValidator).Validate"}, []DynEntry{
 				{Func: "(*ParamValidator).Validate", DataArg: 1}, {Func: "(*HeaderValidator).Validate", DataArg: 1}, {Func: "(*itemsValidator).Validate", DataArg: 2},
@@ -222,7 +222,7 @@ func init() {
 		Assumptions: []string{trustDeps},
 	}
 	Properties["C01"] = PropSpec{
-		Rules:       []Rule{EqualTable, PoolAPI, ExactArith, KeyExemption, Keywords("SchemaValidator", schemaKeywords, "schema_ctor_calls"), NilPath, Counting, Orderings, OrderingsTyped, Pure, ArgRole, TypeTable, AppliesTable, KeywordPosition, HelperField, ObjectRouting, SliceRouting, KeywordRouting, KeywordPred, KeywordGuard, EnumConvert, KConsistent, OneShot, PoolCtor, ResLinear, ResultAlgebra, MapOrder("(*SchemaValidator).Validate", "AgainstSchema")},
+		Rules:       []Rule{EqualTable, DataWalk, PoolAPI, ExactArith, KeyExemption, Keywords("SchemaValidator", schemaKeywords, "schema_ctor_calls"), NilPath, Counting, Orderings, OrderingsTyped, Pure, ArgRole, TypeTable, AppliesTable, KeywordPosition, HelperField, ObjectRouting, SliceRouting, KeywordRouting, KeywordPred, KeywordGuard, EnumConvert, KConsistent, OneShot, PoolCtor, ResLinear, ResultAlgebra, MapOrder("(*SchemaValidator).Validate", "AgainstSchema")},
 		Explanation: "Structural necessary conditions of draft-4 agreement, decided on every path: KEYWORDS — each of the 27 supported keywords of the schema is handed by newSchemaValidator to a sub-validator constructor, kept (itself or something built from it) in a field, and that field is read by the sub-validator's Validate/Applies (a keyword that is dropped or stored-but-never-read is a skipped constraint); COUNTING — oneOf/allOf are decided exactly by constant-propagating the post-loop region for every value of the counter of valid alternatives (0..3) and number of members, anyOf returns on the first valid alternative and errs after the loop otherwise, not errs exactly on the IsValid() edge of the sub-result, the counter is incremented once per valid alternative; TYPE-TABLE — the `type` keyword is decided exactly on a table of 246 cases (12 data incl. typed Go numbers × 9 type lists × nullable × format): the type validator, evaluated by constant propagation with its own fields bound to constants, returns an error exactly when draft 4 says the type does not match (integral numbers are integers, Go integers are numbers, nullable admits null, a format does not change the verdict of `type` for non-numeric data); APPLIES-TABLE — each group holding kind-specific keywords (string, number, object, array; identified by the schema keyword its constructor receives) admits exactly the reflect kinds those keywords govern (Applies evaluated for every kind by constant propagation); ROUTING — the object validator is executed on its control flow only, forking on structural atoms (recv.AdditionalProperties==nil, .Allows, .Schema==nil, has(recv.Properties,K), the results of the pattern matcher), methods of the receiver inlined: in every one of the ≈240 consistent configurations that reach the normal return, the generic member (K,V) of the instance is handed to the pattern matcher (which validates it against every matching pattern schema), and a member that is neither declared nor matched is validated against additionalProperties when that is a schema (exact over configurations: two edits that are each behaviour-preserving but together leave a configuration uncovered are reported, each one alone is not), additionalProperties:false raises 'not allowed' exactly for undeclared, unmatched, non-special names; the same enumeration for the array validator: items-as-schema validates every element, items-as-tuple validates position i against schema i, additionalItems (schema / false) applies exactly to the elements following a tuple and never without one; and for `required` (an error exactly for a name that is neither a member nor created from a default, the list being examined whenever it is not empty) and `dependencies` (schema dependency ⇒ the instance is validated against it, property dependency ⇒ an error exactly for each absent dependency, nothing for members that are absent or declare none); NILPATH — keyword groups whose Applies does not depend on the kind must also run for a nil instance (one genuine violation is a known finding); KEYWORD-GUARD — a constraint helper called from a Validate method is guarded only by the presence of its keyword, the type assertion and earlier outcomes, never by the instance value; ENUM-CONVERT — enum membership compares the instance converted to the member's type with that member; K-CONSISTENT/MEMBER-GUARD — every member (property, pattern/additional property, list/tuple/additional item) is validated against its schema under its own key and not filtered by its value or name; MAP-ORDER — no order-dependent early exit from map ranges in the schema validators; D-BOUND on the element loops (via C06); ONESHOT-EQ — AgainstSchema is NewSchemaValidator(...).Validate plus HasErrors; POOL-CTOR — no constraint field of a recycled validator is left from a previous schema; RES-LINEAR — no verdict is read from, merged from or released twice through a result that already went back to the pool (directly or through a variable that aliases it, e.g. the best-failure of anyOf/oneOf), which is what turns a later, unrelated validation into a wrong verdict; RESULT-ALGEBRA — every merge helper (Merge, mergeForField, mergeForSlice, MergeAsErrors…) applies the documented effects for every non-nil operand on every path, so the errors of a member or item can never be lost on the way to the verdict (for instance when schemata recording is switched off). POOL-API: the shared empty result is refused by the result redeemer. KEY-EXEMPTION, EXACT-ARITH (multipleOf through a tolerance predicate) and the enum clauses: violated on the current tree, listed as known findings with failing inputs.",
 		NotDecided:  "Whether each keyword's predicate agrees with draft 4 (oneOf counting, integer-vs-number, enum equality across numeric types, regexp search semantics, format registries…): value-level, out of reach of static analysis; the checks decide that no keyword group is skipped, mis-keyed or conditioned on the wrong thing.",
 		Assumptions: []string{trustDeps},
